@@ -41,7 +41,8 @@ Proof.
 Qed.
 
 (* ---- the dump oracle holds on every reachable state of the model ---- *)
-Definition dn_of (nd : node) : dnode := mkdn (n_path nd) (map p_q (n_pit nd)) (match n_cs nd with Some _ => true | None => false end).
+Definition de_of (e : pite) : dentry := mkde (p_q e) (is_nil (p_ins e) && is_nil (p_outs e)) (p_exp e).
+Definition dn_of (nd : node) : dnode := mkdn (n_path nd) (map de_of (n_pit nd)) (match n_cs nd with Some _ => true | None => false end).
 
 Lemma dump_nodes : forall s, d_nodes (dump_of s) = map dn_of (nodes s).
 Proof. reflexivity. Qed.
@@ -49,10 +50,16 @@ Proof. reflexivity. Qed.
 Lemma count_pit_E : forall s, count_pit (map dn_of (nodes s)) = Z.of_nat (length (E s)).
 Proof.
   intro s. unfold count_pit, E, ents. f_equal. induction (nodes s) as [|nd t IH]; [reflexivity|]. simpl.
-  rewrite !app_length, map_length, IH. reflexivity.
+  unfold dn_queued at 1. simpl. rewrite !app_length, !map_length, IH. reflexivity.
 Qed.
 
 Lemma flags_E : forall s, flat_map dn_queued (map dn_of (nodes s)) = map p_q (E s).
+Proof.
+  intro s. unfold E, ents. induction (nodes s) as [|nd t IH]; [reflexivity|]. simpl. rewrite map_app, IH.
+  unfold dn_queued. simpl. rewrite map_map. reflexivity.
+Qed.
+
+Lemma dents_E : forall s, flat_map dn_ents (map dn_of (nodes s)) = map de_of (E s).
 Proof.
   intro s. unfold E, ents. induction (nodes s) as [|nd t IH]; [reflexivity|]. simpl. rewrite map_app, IH. reflexivity.
 Qed.
@@ -77,14 +84,14 @@ Proof.
 Qed.
 
 Lemma dn_busy_idle : forall nd, dn_busy (dn_of nd) = negb (node_idle nd).
-Proof. intro nd. unfold dn_busy, dn_of, node_idle. simpl. destruct (n_pit nd); destruct (n_cs nd); reflexivity. Qed.
+Proof. intro nd. unfold dn_busy, dn_of, node_idle, dn_queued. simpl. destruct (n_pit nd); destruct (n_cs nd); reflexivity. Qed.
 
 Theorem oracle_always : forall s L, g_inv s L -> d_inv s -> c08_always (dump_of s) = [].
 Proof.
   intros s L G D. pose proof G as [P ND OK]. pose proof (pi_cs s P) as C.
   destruct (sizes_truthful s L G) as [S1 [S2 [S3 [S4 [S5 S6]]]]].
-  unfold c08_always. rewrite dump_nodes. cbn [d_npit d_ncs d_tok d_heap d_csmap d_lruq d_locs d_dnl d_dnlq dump_of].
-  rewrite count_pit_E, (count_cs_q s C), flags_E.
+  unfold c08_always. rewrite dump_nodes. cbn [d_now d_npit d_ncs d_tok d_heap d_csmap d_lruq d_locs d_dnl d_dnlq dump_of].
+  rewrite count_pit_E, (count_cs_q s C), flags_E, dents_E.
   assert (C1 : (npit s =? Z.of_nat (length (E s))) = true) by (apply Z.eqb_eq; exact S1).
   assert (C2 : ((ncs s =? Z.of_nat (length (lruq s))) && (Z.of_nat (length (csmap s)) =? ncs s)) = true).
   { rewrite (ci_ncs s C), S5. rewrite !Z.eqb_refl. reflexivity. }
@@ -113,7 +120,12 @@ Proof.
       simpl. rewrite Ep. apply name_eqb_refl. }
   assert (C7 : (Z.of_nat (length (dnl s)) =? Z.of_nat (length (dnlq s))) = true).
   { apply Z.eqb_eq. f_equal. rewrite <- (map_length fst (dnlq s)). apply NoDup_same_length; [apply (di_nd s D)|apply (di_qnd s D)|apply (di_eq s D)]. }
-  rewrite C1, C2, C3, C4, C5, C6, C7. reflexivity.
+  assert (C8 : forallb (fun e => negb (de_norec e) || (de_exp e <=? now s)) (map de_of (E s)) = true).
+  { apply forallb_forall. intros x Hx. apply in_map_iff in Hx. destruct Hx as [e [Ex He]]. subst x. simpl.
+    destruct (OK e He) as [_ [_ [_ [_ B3]]]].
+    destruct (p_ins e) as [|i li] eqn:Ei; [|reflexivity]. destruct (p_outs e) as [|o lo] eqn:Eo; [|reflexivity].
+    simpl. apply Z.leb_le. apply B3; reflexivity. }
+  rewrite C1, C2, C3, C4, C5, C6, C7, C8. reflexivity.
 Qed.
 
 Theorem oracle_quiescent : forall s L, g_inv s L -> E s = [] -> dnl s = [] -> dnlq s = [] -> c08_quiescent (dump_of s) = [].
